@@ -24,7 +24,7 @@ weights (cumulative weights + bisect of `random()·total`).
 | `p.roll()`: weight of each sorted roll = its weight in the Cartesian product = its `rolls_with_counts()` count (C02) | `C10_proll_distribution`, `C10_proll_matches_rolls_with_counts` |
 | one independent draw per die, in pool order | `C10_one_draw_per_die` |
 | the generator's answers are the only input besides the dice: one answer per die, in pool order, the rest of the stream handed on untouched; equal answer streams reproduce the roll | `C10_stream_only_source`, `C10_stream_one_answer_per_die`, `C10_equal_streams_reproduce` |
-| the stream view has the encoded distribution (of the `total` equally likely answers exactly `h[o]` return `o`; never a zero-count face) and agrees with the weighted-list model | `C10_stream_distribution`, `C10_stream_never_zero_count`, `C10_stream_matches_weighted` |
+| the stream view has the encoded distribution (of the `total` equally likely answers exactly `h[o]` return `o`; never a zero-count face) and agrees with the weighted-list model | `C10_stream_distribution`, `C10_stream_never_zero_count`, `C10_stream_matches_weighted`; for pools, over all `∏ total` answer sequences: `C10_stream_pool_distribution`, `C10_stream_answer_sequences` |
 | that the generator consulted is the one installed as `dyce.rng.RNG` *at the time of the call* | correspondence (scripted generators swapped between calls, request log) |
 
 Partial: fairness of the real bit generator and the floating-point product `random()*total` inside
@@ -121,6 +121,37 @@ theorem C10_equal_streams_reproduce (hs : List (Hist Int)) (hpos : ∀ h ∈ hs,
     (pre rest₁ rest₂ : List Nat) (hlen : pre.length = hs.length) :
     (rollPoolS hs (pre ++ rest₁)).1 = (rollPoolS hs (pre ++ rest₂)).1 := by
   rw [C10_stream_only_source hs hpos pre rest₁ hlen, C10_stream_only_source hs hpos pre rest₂ hlen]
+
+/-- **the whole distribution from the generator's side**: over all `∏ total` equally likely answer
+sequences (one in-range answer per die), the number that make `p.roll()` return `r` is the weight
+`P.roll` has in the weighted-list model — i.e. (by `C10_proll_matches_rolls_with_counts`) the count
+`rolls_with_counts()` reports for `r` -/
+theorem C10_stream_pool_distribution (hs : List (Hist Int)) (hpos : ∀ h ∈ hs, total h ≠ 0) (r : List Int) :
+    ((allAnswers hs).filter fun us => (rollPoolS hs us).1 = r).length = countOf r (rollPoolW hs) := by
+  rw [C10_proll_distribution hs hpos r, ← sum_rollDiceS hs hpos]
+  unfold rollPoolS
+  induction allAnswers hs with
+  | nil => rfl
+  | cons us l ih =>
+    simp only [List.filter_cons, List.map_cons, List.sum_cons]
+    split <;> rename_i hh
+    · have : ((rollDiceS hs us).1.mergeSort fun a b => decide (a ≤ b)) = r := by simpa using hh
+      rw [List.length_cons, ih, if_pos this]; omega
+    · have : ¬ ((rollDiceS hs us).1.mergeSort fun a b => decide (a ≤ b)) = r := by simpa using hh
+      rw [ih, if_neg this]; omega
+
+theorem C10_stream_answer_sequences (hs : List (Hist Int)) :
+    (allAnswers hs).length = (hs.map total).prod := by
+  induction hs with
+  | nil => rfl
+  | cons h hs ih =>
+    have : ∀ (n : Nat), ((List.range n).flatMap fun u => (allAnswers hs).map fun us => u :: us).length
+        = n * (allAnswers hs).length := by
+      intro n
+      induction n with
+      | zero => simp
+      | succ n ihn => rw [List.range_succ, List.flatMap_append, List.length_append, ihn]; simp [Nat.succ_mul]
+    simp only [allAnswers, List.map_cons, List.prod_cons, this, ih]
 
 /-! non-vacuity: 2d{1:1,2:2} with answers 2, 0 (then 7) draws faces 2, 1 in pool order and leaves 7 -/
 example : rollDiceS [[(1, 1), (2, 2)], [(1, 1), (2, 2)]] [2, 0, 7] = ([2, 1], [7]) := by decide
